@@ -402,6 +402,14 @@ class SymExec:
                     if sty is not None and sty.k == "array" and isinstance(sty.len, int):
                         self.unsized[t] = sty.len
                 return t
+            if ck == "Transmute" and r["op"]["k"] in ("copy", "move"):
+                # `*boxed` as MIR spells it: `(boxed.0.0 as *const T)` dereferenced.  A place of type
+                # Box<T> stands for its content here, so that pointer is a reference to the place
+                pl = r["op"]["place"]
+                if len(pl["p"]) == 2 and all(isinstance(e, dict) and e.get("f") == 0 for e in pl["p"]):
+                    bty = place_ty(self.fb, self.body, {"l": pl["l"], "p": []})
+                    if bty is not None and bty.k == "adt" and (bty.path or "").split("<")[0] in ("std::boxed::Box", "alloc::boxed::Box"):
+                        return ("ref", self.place_loc(st, {"l": pl["l"], "p": []}), False)
             if ck in ("Transmute", "PtrToPtr", "Subtype"):
                 return ("cast", ck, t, self.fb.ty(r["ty"]).s)
             return ("cast", ck, t, self.fb.ty(r["ty"]).s)
@@ -473,6 +481,24 @@ class SymExec:
         # resolves to, named directly - the same bytes
         if GA_FROM.match(name) and len(args) == 1:
             name = "<T as std::convert::Into<U>>::into"
+        # `x.magnitude().to_bytes_le()` is `x.to_bytes_le().1` (num-bigint: the little-endian bytes
+        # of the magnitude, the sign left aside) - one spelling for the rules
+        if name == "num_bigint::BigUint::to_bytes_le" and len(args) == 1:
+            m_ = args[0]
+            for _ in range(4):
+                if m_[0] in ("ref", "refv") and isinstance(m_[1], tuple) and m_[1] and m_[1][0] in ("call", "ref", "refv"):
+                    m_ = m_[1]
+                elif m_[0] == "ref" and m_[1][0] == "deref" and m_[1][1][0] in ("call", "ref", "refv"):
+                    m_ = m_[1][1]       # a re-borrow `&*r` of the reference the call returned
+                elif m_[0] == "ref" and m_[1][0] == "local":
+                    m_ = self.read(st, m_[1])
+                else:
+                    break
+            if m_[0] == "call" and m_[1] == "num_bigint::BigInt::magnitude" and len(m_[2]) == 1:
+                v = ("field", ("call", "num_bigint::BigInt::to_bytes_le", (m_[2][0],), site), 1)
+                dest = self.place_loc(st, t["dest"])
+                self.write(st, dest, v)
+                return {"k": "call", "name": "num_bigint::BigInt::to_bytes_le", "args": (m_[2][0],), "locargs": (m_[2][0],), "term": v, "inlined": True, "ret": v, "site": site, "dest": dest}
         # `array.len()`: the slice was unsized from `&[T; N]` in this body - the constant N
         if name == "core::slice::<impl [T]>::len" and len(args) == 1 and args[0] in self.unsized:
             v = ("int", self.unsized[args[0]], "usize")
